@@ -41,6 +41,14 @@ func genATCase(r *Rng, w *ATWorld, id string, o ATGenOpts) *ATCase {
 			l.Stmts = append(l.Stmts, st)
 			c.Classes = append(c.Classes, st.Classes...)
 		}
+		// a statement the database fails (injected): in a lenient transaction the rest goes on, otherwise
+		// the local transaction is rolled back
+		if o.ContinueOnError && r.Chance(25) {
+			l.Stmts[r.Intn(len(l.Stmts))].ForceFail = true
+			if l.Explicit && len(l.Stmts) > 1 && r.Chance(70) {
+				l.ContinueOnError = true
+			}
+		}
 		// an explicit transaction whose application ignores a failed statement (an INSERT of an existing
 		// key) and commits what went through
 		if l.Explicit && o.ContinueOnError && len(c.Rows) > 0 && r.Chance(40) {
